@@ -1,1 +1,57 @@
-// harnesses for this module (included by the isomer_erbium_verif hook)
+// Kani harnesses for crates/erbium-core/src/dhcp/mod.rs (C12: the IPv4 destination of a reply is the limited broadcast
+// address exactly when the client set the broadcast bit, otherwise the assigned address).  The choice is made inline in the
+// async recvdhcp; the initialiser of `let dst` is lifted verbatim by lib/lift.py.
+#[cfg(kani)]
+mod k {
+    #[allow(unused_imports)]
+    use super::super::*;
+    use erbium_net::addr::*;
+    include!(concat!(env!("ISOMER_ERBIUM_VERIF_DIR"), "/_common.rs"));
+
+    include!(concat!(env!("VERIF_GEN_DIR"), "/reply_destination.rs"));
+
+    fn pkt(flags: u16, yiaddr: u32) -> dhcppkt::Dhcp {
+        dhcppkt::Dhcp {
+            op: dhcppkt::OP_BOOTREPLY,
+            htype: dhcppkt::HWTYPE_ETHERNET,
+            hlen: 6,
+            hops: 0,
+            xid: 0,
+            secs: 0,
+            flags,
+            ciaddr: std::net::Ipv4Addr::UNSPECIFIED,
+            yiaddr: std::net::Ipv4Addr::from(yiaddr),
+            siaddr: std::net::Ipv4Addr::UNSPECIFIED,
+            giaddr: std::net::Ipv4Addr::UNSPECIFIED,
+            chaddr: Vec::new(),
+            sname: Vec::new(),
+            file: Vec::new(),
+            options: dhcppkt::DhcpOptions { other: std::collections::HashMap::with_hasher(fixed_random_state()) },
+        }
+    }
+
+    /// VERIF: {"p":"C12","tier":"quick","fns":["dhcp::DhcpService::recvdhcp (initialiser of `let dst` lifted from source)","dhcppkt::Dhcp::get_broadcast_flag","erbium_net::addr::{with_port,as_sockaddr_in}"],"bounds":"all 65536 flag values of the request, all 2^32 assigned addresses, all source ports","oracle":"destination = 255.255.255.255 exactly when the most significant bit of the request's flags is set, otherwise the reply's yiaddr; port = the port the request came from","stubs":["initialiser of `let dst` lifted verbatim from recvdhcp; sockets and netlink lookups not executed","option maps created with fixed hasher keys (never filled)"],"covers":2,"unwind":4}
+    #[kani::proof]
+    #[kani::unwind(4)]
+    fn c12_reply_destination_follows_broadcast_bit() {
+        let flags: u16 = kani::any();
+        let yiaddr: u32 = kani::any();
+        let port: u16 = kani::any();
+        let src: u32 = kani::any();
+        let request = DHCPRequest { pkt: pkt(flags, 0), serverip: std::net::Ipv4Addr::UNSPECIFIED, ifindex: 1, if_mtu: None, if_router: None };
+        let reply = pkt(0, yiaddr);
+        let ip4 = erbium_net::nix::sys::socket::SockaddrIn::from(std::net::SocketAddrV4::new(std::net::Ipv4Addr::from(src), port));
+        let dst = lifted_reply_destination(&request, &reply, ip4);
+        kani::cover!(flags & 0x8000 != 0 && flags & 0x80 == 0, "broadcast bit set, bit 7 clear");
+        kani::cover!(flags & 0x8000 == 0 && yiaddr == 0xC0000205, "unicast to 192.0.2.5");
+        let got = u32::from(std::net::Ipv4Addr::from(dst.ip()));
+        if flags & 0x8000 != 0 {
+            assert!(got == 0xFFFF_FFFF, "broadcast bit set => limited broadcast destination");
+        } else {
+            assert!(got == yiaddr, "broadcast bit clear => destination is the assigned address");
+        }
+        assert!(dst.port() == port, "reply goes to the port the request came from");
+        std::mem::forget(request);
+        std::mem::forget(reply);
+    }
+}
